@@ -96,7 +96,7 @@ fn check_nesting(ctx: &Ctx, x: &[u8], origin: &str) {
 }
 
 pub fn run(ctx: &Ctx) {
-    ctx.rule("inputs = valid encodings restricted to the modern tag set (from the independent writer) + their truncations at every offset + byte mutations/splices + random bytes; distinct = distinct (outcome pair of the two decoders, first tag byte, input-length bucket, value-kind set for valid inputs)");
+    ctx.rule("inputs = valid encodings restricted to the modern tag set (from the independent writer) + valid encodings over all admissible tags incl. legacy ones (agreement where both accept) + their truncations at every offset + byte mutations/splices + random bytes; distinct = distinct (outcome pair of the two decoders, first tag byte, input-length bucket, value-kind set for valid inputs)");
     ctx.assume("modern tag set = 70,77,88,89,90,97,98,104..111,112,113,116,118,119,120 (what OTP 26+ emits over distribution)");
     let opts = Opts { modern_only: true, ..Opts::default() };
     let mut rng = Rng::derive(ctx.seed, 13, 1);
@@ -122,6 +122,33 @@ pub fn run(ctx: &Ctx) {
             corpus.push((v, b));
         }
     }
+    // the same values in every admissible encoding, legacy tags included (Latin-1 atoms, text floats, old
+    // identifier tags, STRING_EXT ...): the zero-copy decoder may reject these, but where it accepts it must agree
+    let n_modern = corpus.len();
+    {
+        let legacy = Opts { allow_local: true, ..Opts::default() };
+        for leaf in boundary_leaves(false) {
+            for v in skeletons(&leaf).into_iter().take(3) {
+                for bias in [60u32, 95] {
+                    let mut ch = RandomChooser { rng: &mut rng, legacy_bias: bias, taken: vec![] };
+                    if let Ok(b) = ref_encode(&v, &mut ch, &legacy) {
+                        corpus.push((v.clone(), b));
+                    }
+                }
+            }
+        }
+        for _ in 0..n_random / 2 {
+            let cfg = GenCfg { max_depth: 2 + grng.below(4), max_nodes: 4 + grng.below(30), float_keys: true, ..GenCfg::default() };
+            let v = {
+                let mut g = Gen::new(&mut grng, cfg);
+                g.value()
+            };
+            let mut ch = RandomChooser { rng: &mut rng, legacy_bias: 80, taken: vec![] };
+            if let Ok(b) = ref_encode(&v, &mut ch, &legacy) {
+                corpus.push((v, b));
+            }
+        }
+    }
     let cls = |ctx: &Ctx, x: &[u8], kind: &str| {
         let o = erltf::decode(x).is_ok();
         let b = erltf::decode_borrowed(x).is_ok();
@@ -131,8 +158,13 @@ pub fn run(ctx: &Ctx) {
         if !ctx.time_left() {
             break;
         }
-        ctx.class(&format!("valid/{:x}", kinds_mask(v)));
-        check(ctx, b, Some(v), "valid modern encoding");
+        if i < n_modern {
+            ctx.class(&format!("valid/{:x}", kinds_mask(v)));
+            check(ctx, b, Some(v), "valid modern encoding");
+        } else {
+            ctx.class(&format!("valid-any-tag/{:x}", kinds_mask(v)));
+            check(ctx, b, None, "valid encoding using legacy tags");
+        }
         if i % 4001 == 0 {
             ctx.sample(json!({"value": v.show(), "bytes": hex_cap(b, 48)}));
         }
